@@ -120,6 +120,7 @@ def rules_for(pid):
             ("D-compose2", lambda c: ROPS.compose_rule(c.P, c.E, c.H), 4),
             ("H-next-forward", lambda c: ROPS.forward_rule(c.P, c.E, c.H), 8),
             ("SUB-inputs", lambda c: RX.sub_inputs(c.P, c.E, c.H), 40),
+            ("WIRE", lambda c: RX.wire_rule(c.P, c.E, c.H, lambda m: m not in COMBINATORS and m not in RECOVERY and m not in SCHED_OPS and m not in ("publish", "ref_count", "replay")), 50),
         ],
         "C03": [
             ("H-register-first", lambda c: RH.h_register_first(c.P, c.E, c.H), 9),
@@ -141,6 +142,7 @@ def rules_for(pid):
             ("ARITY", lambda c: RAR.arity_rule(c.P, c.E, c.H), 3),
             ("COMPLETE-KIND", lambda c: ROPS.complete_kind_rule(c.P, c.E, c.H), 8),
             ("GATE-ORDER", lambda c: ROPS.gate_order_rule(c.P, c.E, c.H), 4),
+            ("WIRE", lambda c: RX.wire_rule(c.P, c.E, c.H, lambda m: m in COMBINATORS), 20),
         ],
         "C04": [
             ("H-error", lambda c: RH.h_error(c.P, c.E, c.H), 26),
@@ -161,6 +163,7 @@ def rules_for(pid):
             # amb is not an error handler: the error of the input that signals first (or of the winner) is mirrored
             ("AMB", lambda c: ROPS.amb_rule(c.P, c.E, c.H), 1),
             ("GATE", lambda c: ROPS.gates_rule(c.P, c.E, c.H), 4),
+            ("WIRE", lambda c: RX.wire_rule(c.P, c.E, c.H, lambda m: m in RECOVERY), 8),
         ],
         "C05": [
             ("O-unsub-order", lambda c: RO.o_unsub_order(c.P, c.E), 4),
@@ -255,6 +258,7 @@ def rules_for(pid):
             # observe_on's handlers only post: nothing on the emitting thread may tear the stream down behind them
             ("S-wiring-relay", lambda c: _only(RO.s_wiring(c.P, c.E), ("internals::stream_controller::StreamController::new_observer",),
                                                contains=("relay", "registered observer")), 3),
+            ("WIRE", lambda c: RX.wire_rule(c.P, c.E, c.H, lambda m: m in SCHED_OPS), 4),
         ],
         "C10": [
             ("J", lambda c: RJ.j_rules(c.P, c.E), 8),
@@ -301,6 +305,7 @@ def rules_for(pid):
             ("SUB", lambda c: RO.sub_rules(c.P, c.E), 3),
             ("INIT", lambda c: RX.init_rule(c.P, c.E, ("operators::ref_count::", "operators::replay::")), 2),
             ("HOOK-STORE", lambda c: RO.hook_store(c.P, c.E, ("subjects::subject::",)), 2),
+            ("WIRE", lambda c: RX.wire_rule(c.P, c.E, c.H, lambda m: m in ("publish", "ref_count", "replay")), 6),
         ],
         "C15": [
             ("T1", lambda c: RS.t1_abort_wired(c.P, c.E), 3),
